@@ -17,6 +17,15 @@ AlgLevel(S) == { <<x, "s.v">> : x \in S }
 Programs3Alg == Progs3(Kinds2, AlgLevel)           \* 64 programs: 8 edge sets x 8 kind assignments
 Programs3Val == Progs3(Kinds2, Pairs)              \* value-level declarations: 4 x 16 x 8 = 512
 Programs3Reg == Progs3(Kinds3, AlgLevel)           \* with regressions: 216
+(* focus set for deep sampled replays: chains, a fork and a triangle with the kind mixes that matter *)
+FocusKinds == { <<"task", "task", "task">>, <<"task", "task", "analysis">>, <<"task", "analysis", "task">> }
+FocusIns == { <<{<<A1, "s.v">>}, {<<A2, "s.v">>}>>,                      \* chain a -> b -> c
+              <<{<<A1, "s.v">>}, {<<A1, "s.v">>}>>,                      \* fork  a -> b, a -> c
+              <<{<<A1, "s.v">>}, {<<A1, "s.w">>, <<A2, "s.v">>}>> }      \* triangle with a value-level edge
+Programs3Focus ==
+  { [kind |-> (A1 :> k[1] @@ A2 :> k[2] @@ A3 :> k[3]),
+     ins  |-> (A1 :> {} @@ A2 :> i[1] @@ A3 :> i[2]),
+     vals |-> (A1 :> V(A1) @@ A2 :> V(A2) @@ A3 :> V(A3))] : k \in FocusKinds, i \in FocusIns }
 Progs4(K, P(_)) ==
   { [kind |-> (A1 :> k1 @@ A2 :> k2 @@ A3 :> k3 @@ A4 :> k4),
      ins  |-> (A1 :> {} @@ A2 :> i2 @@ A3 :> i3 @@ A4 :> i4),
